@@ -44,6 +44,9 @@ CLAIMS = {
  "C18": ("proof", "static table extraction from type-checked HIR/MIR and cross-table agreement",
    "All 36 names are decided as agreement of five finite tables (enum, factory arms from HIR and again from MIR, FromStr, Display, clap ValueEnum) plus the naming law and the variant documentation; every row is an obligation and all must discharge. Finite and exhaustive, so a table-level proof is the right level.",
    "Trusted: rustc's HIR/MIR for the crate, match-arm semantics. The behaviour of the generic decoders themselves is C01/C03, not C18."),
+ "C20": ("other", "match-table extraction, symbolic print/compute wiring through decoded format templates, length provenance of the written slice, panic-site audit of each subcommand",
+   "Decides: the 21-row DVB-S2 and the CCSDS argument tables by naming law; for every generator subcommand the printed text is alist()/girth() of exactly the matrix the library call returns for the parsed arguments; Args::config copies like-named fields; the dispatcher has one arm per subcommand; encode reads k-byte words with read_exact, stops only on UnexpectedEof and writes a slice length-tied to the (punctured) codeword; fallible calls are propagated with `?`; ber result lines have 11 matching columns, are emitted per Eb/N0 change and at Finished. Actual process output and exit codes need execution and are not decided.",
+   "Trusted: decoding of core::fmt templates; panic model; reviewed entries for n - rows and the [..codeword.len()] slice."),
 }
 NA = {
  "C11": "exactness of BFS/girth over all graphs is an algorithmic value property; every structural rule in reach is satisfied by the present implementation although its local-girth result can be wrong for roots off the shortest cycle, so a static claim would certify a false property",
